@@ -269,7 +269,7 @@ def correspond(ctx):
                     corpus.append((int(fs["cap"]), fs["ops"].split(",")))
     if corpus:
         judge(ctx, binary, corpus, "corpus")
-    ncases = 2400 if quick else 60000
+    ncases = 16000 if quick else 200000
     caps_small = [1, 2, 3, 4, 5, 6, 7, 8, 9, 12, 15, 16, 17, 31, 32, 33, 63, 64]
     batch = []
     for n in range(ncases):
